@@ -10,11 +10,13 @@ mod c06;
 mod c08;
 mod c08q;
 mod c10;
+mod c11;
 mod c12;
 mod c13;
 mod c14;
 mod c15;
 mod c19;
+mod c20;
 mod eng;
 
 pub fn report(obligation: &str, input: String, observed: String, expected: String) {
@@ -37,11 +39,13 @@ fn main() {
         "C08" => c08::run(seed),
         "C08Q" => c08q::run(seed, std::env::args().nth(3).as_deref() == Some("thorough")),
         "C10" => c10::run(seed, std::env::args().nth(3).as_deref() == Some("thorough")),
+        "C11" => c11::run(seed, std::env::args().nth(3).as_deref() == Some("thorough")),
         "C12" => c12::run(seed, std::env::args().nth(3).as_deref() == Some("thorough")),
         "C13" => c13::run(seed, std::env::args().nth(3).as_deref() == Some("thorough")),
         "C14" => c14::run(seed, std::env::args().nth(3).as_deref() == Some("thorough")),
         "C15" => c15::run(seed),
         "C19" => c19::run(seed, std::env::args().nth(3).as_deref() == Some("thorough")),
+        "C20" => c20::run(seed, std::env::args().nth(3).as_deref() == Some("thorough")),
         _ => {
             eprintln!("no witness search for {pid}");
             0
